@@ -23,6 +23,8 @@ BN_BATCHES = [
     [[0, 1], [2, 1], [4, 4]],
     [[1, 0], [3, 2], [-1, 5], [1, 1]],
     [[2, 2], [0, -2]],
+    # far from the origin (integers: exact in float32): a variance computed as E[x^2] - E[x]^2 cancels here
+    [[1000, -2001], [1002, -2000], [1001, -2002]],
 ]
 
 
@@ -53,6 +55,8 @@ def an_batches(torch, seed):
         1: torch.randn(6, 3, generator=g) * torch.tensor([0.5, 2.0, 3.0]) + torch.tensor([1.0, -2.0, 0.3]),
         2: torch.randn(4, 3, generator=g) * 1.7 - 0.4,
         3: torch.randn(3, 3, 2, 3, generator=g) * torch.tensor([2.0, 0.3, 1.0]).view(1, 3, 1, 1) + 0.8,
+        # one image: a batch of a single item still has per-channel statistics (2 x 3 pixels)
+        4: torch.randn(1, 3, 2, 3, generator=g) * torch.tensor([0.7, 1.5, 2.5]).view(1, 3, 1, 1) - 1.1,
     }
 
 
@@ -328,7 +332,7 @@ def main(run, replay=None):
     thorough = run.tier == "thorough"
     nproc = min(16, os.cpu_count() or 4)
     # ---------------- ActNorm
-    res = T.run_tlc("ActNormLife", T.cfg(constants={"NumBatches": 3}, invariants=["TypeOK", "InitializedIffFromBatch"], properties=AN_PROPS), dot=True, name="actnorm")
+    res = T.run_tlc("ActNormLife", T.cfg(constants={"NumBatches": 4}, invariants=["TypeOK", "InitializedIffFromBatch"], properties=AN_PROPS), dot=True, name="actnorm")
     run.model_must_hold(res, "ActNormLife")
     run.add_tlc(res, "ActNormLife", require_actions=["Forward", "Inverse", "SaveLoadFresh", "Train", "Eval"])
     g = parse_dot(res.dot)
@@ -407,7 +411,7 @@ def main(run, replay=None):
 def _history_walk(c):
     """Rebuild an annotated walk for a recorded history by re-running TLC and following labels."""
     if c["layer"] == "ActNorm":
-        res = T.run_tlc("ActNormLife", T.cfg(constants={"NumBatches": 3}), dot=True, coverage=False)
+        res = T.run_tlc("ActNormLife", T.cfg(constants={"NumBatches": 4}), dot=True, coverage=False)
     else:
         mom = Fraction(*c["momentum"])
         name = "MC_BN_%d_%d" % (mom.numerator, mom.denominator)
